@@ -32,12 +32,53 @@ def crafted(chk, runner, shapes):
     return sh, f, cut
 
 
+def embedded_files(chk):
+    """valid files one of whose string values is itself a complete small file of the same struct (an attachment,
+    a nested export), the string column being the last one: every strict prefix is swept like any other file's.
+    A prefix that ends with the embedded file's trailer opens through the embedded footer; it must still be
+    refused because the page that holds the value is cut.  Returns (shapes, runner, files)."""
+    F = S.F
+    shs = [S.Shape("idbody", [F("ID", "req", "int64"), F("Body", "req", "string")], desc="required string last"),
+           S.Shape("idoptbody", [F("ID", "req", "int64"), F("Body", "opt", "string")], desc="optional string last"),
+           S.Shape("idreptags", [F("ID", "req", "int64"), F("Tags", "rep", "string")], desc="repeated string last")]
+    st, runner = S.build_set("c11", shs)
+    shs = [s for s in shs if st[s.name]["status"] == "ok"]
+    if runner is None or not shs:
+        chk.broke("build", "runner for the C11 shapes does not build")
+        return [], None, []
+    out = []
+    for sh in shs:
+        wrap = (lambda x: "L 1 " + x) if sh.name == "idreptags" else (lambda x: x)
+        for codec in (0, 1):
+            lines = Fm.shape_lines(shs) + ["i write %s %d 1000 -1 0 2 A G 2 I9 %s W" % (sh.name, codec, wrap("S6162"))]
+            impl, _, _, _ = C.run_cases(lines, "C11-inner", impl_cmd=[runner], model_lines=[])
+            pw = Fm.parse_write(impl.get("i"))
+            if not pw:
+                continue
+            inner = b"".join(pw[1])
+            att = "G 2 I5 " + wrap("S" + inner.hex())
+            plain = ["G 2 I%d %s" % (k, wrap("S7a7a")) for k in (1, 2)]
+            for pos in range(3):
+                recs = plain[:]
+                recs.insert(pos, att)
+                for mx in (1000, 2):
+                    out.append(Fm.Workload(sh, codec, mx, recs + ["W"], "embedded-file@%d" % pos))
+    lines = Fm.shape_lines(shs) + [w.line("w%d" % i) for i, w in enumerate(out)]
+    impl, _, _, _ = C.run_cases(lines, "C11-embedded", impl_cmd=[runner], model_lines=[])
+    files = []
+    for i, w in enumerate(out):
+        pw = Fm.parse_write(impl.get("w%d" % i))
+        if pw and "1" not in pw[0]:
+            files.append((w, b"".join(pw[1])))
+    return shs, runner, files
+
+
 def run(chk, st, tier):
     rng = random.Random(chk.seed)
     shapes, runner = Fm.get_portfolio(chk)
     if not runner:
         return
-    small = [s for s in shapes if s.name != "flat24"] or shapes
+    small = [s for s in shapes if s.name not in ("flat24", "flatnum")] or shapes
     files = R.make_files(chk, runner, small, rng, 36 if tier == "quick" else 400, maxrecs=6, pages=(1, 2, 1000), name="C11-files")
     lines = Fm.shape_lines(small) + ["p%d prefixes %s %s" % (i, w.shape.name, C.hexs(f)) for i, (w, f) in enumerate(files)]
     impl, _, e1, _ = C.run_cases(lines, "C11", impl_cmd=[runner])
@@ -72,6 +113,30 @@ def run(chk, st, tier):
                 ident = "m%d_%d" % (i, cut)
                 mlines.append("%s read %s %s plain" % (ident, w.shape.name, C.hexs(p)))
                 mexpect[ident] = (status[cut], w, cut)
+    # the same sweep over the files with an embedded file (own shapes, own runner)
+    eshapes, erunner, efiles = embedded_files(chk)
+    if erunner:
+        elines = Fm.shape_lines(eshapes) + ["p%d prefixes %s %s" % (i, w.shape.name, C.hexs(f)) for i, (w, f) in enumerate(efiles)]
+        eimpl, _, _, _ = C.run_cases(elines, "C11-embedded-sweep", impl_cmd=[erunner], model_lines=[])
+        for i, (w, f) in enumerate(efiles):
+            res = (eimpl.get("p%d" % i) or "").split()
+            if not res or len(res[0]) != len(f):
+                chk.broke("oracle:C11", "prefix sweep of %s did not run: %s" % (w.describe(), (eimpl.get("p%d" % i) or "")[:100]))
+                continue
+            total += len(res[0])
+            chk.count((w.shape.name, f), n=len(res[0]))
+            for ch in res[0]:
+                dist[ch] = dist.get(ch, 0) + 1
+            for cut, ch in enumerate(res[0]):
+                if ch in "KP":
+                    acc = next((x for x in res[2:] if x.startswith("%d:" % cut)), "")
+                    chk.fail("%s|c%d|p%d|%s|cut-class=%s" % (w.shape.name, w.codec, w.max, w.tag, "accepted" if ch == "K" else "panic"),
+                             "%s truncated to %d of %d bytes %s (%s)" % (w.describe(), cut, len(f), "is accepted as a valid file" if ch == "K" else "makes the reader panic", acc),
+                             dict(w.replay(), cut=cut, file=C.hexs(f)[:20000]))
+                    break
+        files_total_extra = len(efiles)
+    else:
+        files_total_extra = 0
     _, model, _, e2 = C.run_cases(mlines, "C11-model", impl_cmd=["true"])
     mism = 0
     for ident, (ch, w, cut) in mexpect.items():
@@ -96,7 +161,7 @@ def run(chk, st, tier):
             chk.fail("C11|crafted:embedded-trailer-in-string-value",
                      "a file whose string value embeds a complete trailer (footer+length+PAR1), cut right after that value (%d of %d bytes), is accepted: %s" % (cut, len(f), a[:60]),
                      {"file": C.hexs(f), "cut": cut, "sha256": hashlib.sha256(f).hexdigest()})
-    chk.coverage["files"] = len(files)
+    chk.coverage["files"] = len(files) + files_total_extra
     chk.coverage["prefixes_read"] = total
     chk.coverage["outcomes"] = {"constructor_error": dist["O"], "error_after_next": dist["E"], "accepted": dist["K"], "panic": dist["P"]}
     chk.coverage["model_compared_prefixes"] = len(mexpect)
@@ -105,7 +170,7 @@ def run(chk, st, tier):
     chk.coverage["exhaustive"] = True
     if files:
         chk.sample({"file": files[0][0].describe(), "bytes": len(files[0][1]), "status_per_cut": (impl.get("p0") or "")[:120]})
-    chk.coverage["rule"] = ("portfolio files (3 codecs, page sizes 1,2,1000): EVERY strict prefix (cut = 0..len-1) read by the real generated reader; it must report an error (constructor or Error()), never accept, never panic. "
+    chk.coverage["rule"] = ("portfolio files (3 codecs, page sizes 1,2,1000) and 36 files (string column last: required / optional / repeated) with a value that is itself a complete file of the same struct (first/middle/last record): EVERY strict prefix (cut = 0..len-1) read by the real generated reader; it must report an error (constructor or Error()), never accept, never panic. "
                             "Model and implementation are compared on prefixes whose verdict does not depend on the thrift decoder's behaviour on garbage (shorter than 8 bytes; trailer length pointing before the file start) and on the crafted "
                             "embedded-trailer witness. distinct counts files; evaluations counts prefixes.")
     chk.coverage["explanation"] = ("C11_short_rejected / C11_bad_length_rejected are proved; the unconditional statement is false for any footer-last format: C11_refuted (coq/props/C11.v) exhibits a valid file with an accepted strict prefix, "
